@@ -113,7 +113,8 @@ def oracle(s, r):
 def cases_for(tier):
     if tier == "thorough":
         return ol.lattice([5, 6, 7, 8, 9, 11, 13, 17], [4, 8, 12, 16, 20, 24, 32], "geo,A11,S,Scache", tier, need_nt4=True,
-                          cycle_offsets=(0, 1), extra={"tlist": "1,3"})
+                          cycle_offsets=(0, 1), extra={"tlist": "1,3"}) + \
+            ol.full_block([5, 7, 8], [4, 8, 12], "geo,A11,S,Scache", tier, need_nt4=True, extra={"tlist": "1,3"})
     return ol.lattice([5, 6, 7, 8, 9, 11], [4, 8, 12, 16], "geo,A11,S,Scache", tier, need_nt4=True, extra={"tlist": "1,3"})
 
 
@@ -132,10 +133,13 @@ def drive(pid, modname, cases, tier, rule, assumptions, extra_cov=None):
                 tot[k] = tot.get(k, 0) + v
         nontriv.add((s["nr"], s["nt"], s["circles"], s["dirbc"], s["geom"], s["alpha"], s["beta"], s["rpat"], s["tpat"]))
         for key, what, extra in viols:
-            rp = {"case": s["line"], "summary": ol.spec_summary(s)}
+            rp = ol.replay_record(s)
             rp.update(extra)
             rep.violation(key, what + "  [case %s]" % json.dumps(ol.spec_summary(s)), rp)
+    hist_cov = ol.history_block(binary, [c for c in cases if not c["id"].startswith("f")], rep, n=(12 if tier == "thorough" else 8))
     cov = {
+        "full_product_block_cases": sum(1 for c in cases if c["id"].startswith("f")),
+        "full_product_block_rule": ol.FULL_BLOCK_RULE,
         "states": len(results), "transitions": int(tot.get("columns", 0)),
         "traces_validated_against_impl": int(tot.get("columns", 0)),
         "evaluations": len(results), "distinct_nontrivial": len(nontriv),
@@ -145,6 +149,7 @@ def drive(pid, modname, cases, tier, rule, assumptions, extra_cov=None):
         "exhaustive": True,
     }
     cov.update(extra_cov or {})
+    cov.update(hist_cov)
     return rep.finish(cov, assumptions)
 
 
